@@ -18,6 +18,9 @@ SPECS = {
     "rep_range": '<start> ::= <a>{1,3} <b>{0,2}\n<a> ::= "x"\n<b> ::= "y"\n',
     "rep_open": '<start> ::= <a>{2,} "."\n<a> ::= "x"\n',
     "nested_rep": '<start> ::= (<a>{1,2} ",")+ <a>\n<a> ::= "x" | "y"\n',
+    "star_in_star": '<start> ::= ("=" <v> ("," <v>)*)* "."\n<v> ::= "1" | "2"\n',
+    "option_in_option": '<start> ::= "h" (":" <p> ("/" <q>)?)?\n<p> ::= "8"\n<q> ::= "x"\n',
+    "plus_in_plus": '<start> ::= (<a> ("," <a>)+ ";")+\n<a> ::= "x"\n',
     "group_alt_star": '<start> ::= ("a" | "b" <c>)* "!"\n<c> ::= "c"\n',
     "right_rec": '<start> ::= "(" <start> ")" | "x"\n',
     "left_rec": '<start> ::= <start> "+" <t> | <t>\n<t> ::= "1" | "2"\n',
